@@ -38,8 +38,11 @@ def main():
         # the reference model of the interpreter against the interpreter
         ostr = fam['corpus'] + fam['boundary'] + fam['fixed'] + fam['context'] + fam['short'][::3] + fam['single'] + fam['multi'] + fam['malformed']
         oracle_dis = C.run_cpyparse_stream(chk, ostr)
-        fdis = C.run_cpyformat_stream(chk, fam['corpus'] + fam['boundary'] + fam['fixed'] + fam['context'][::2] + fam['short'][::9] +
-                                      fam['single'] + fam['multi'] + fam['malformed'][::2], per_string=2 if not chk.thorough else 3)
+        if chk.thorough:
+            fstr = fam['corpus'] + fam['boundary'] + fam['fixed'] + fam['context'][::2] + fam['short'][::9] + fam['single'] + fam['multi'] + fam['malformed'][::2]
+        else:
+            fstr = fam['corpus'] + fam['boundary'] + fam['fixed'] + fam['context'][::3] + fam['short'][::20] + fam['single'][::2] + fam['multi'] + fam['malformed'][::3]
+        fdis = C.run_cpyformat_stream(chk, fstr, per_string=2 if not chk.thorough else 3)
         oracle_dis += [s for s, _p, _k in fdis]
         if oracle_dis:
             chk.coverage['oracle_disagreements'] = [repr(s)[:200] for s in oracle_dis[:10]]
@@ -85,7 +88,7 @@ def main():
         level='proof',
         rule='python-brace: the product fill/align x sign x # x 0 x width x ,/_ x precision x type sampled into single fields with every kind of '
              f'name and conversion ({G.n_specs()} specifications; all in thorough), every name x conversion x tail, every string of length <= {short_len} over '
-             f'{G.PY_ALPHABET!r} and <= {short_len + 2} over {G.PY_ALPHABET2!r} that contains a brace, both sides of every boundary of the interpreter\'s '
+             f'{G.PY_ALPHABET!r} and <= {short_len + 1} (thorough: {short_len + 2}) over {G.PY_ALPHABET2!r} that contains a brace, both sides of every boundary of the interpreter\'s '
              '\\w and \\d tables (and U+0000..U+017F) in 21 slots of a field, numerals around 2^31-1, 2^63-1 and of 4300/4301/4400 digits, every '
              'truncation of two rich strings, multi-field strings (auto / explicit / named numbering, repeated keys with equal and different types, '
              'nested fields), 1-2-edit mutants, garbage; the overflow and digit-limit branches under patched SSIZE_MAX / sys.set_int_max_str_digits.  '
